@@ -159,12 +159,13 @@ TIE = {
  "C04": "utils.logit, utils.sigmoid, the derived fields of BoundedTransform.__init__, to_unit_interval / from_unit_interval, and forward / inverse of LogitTransform, ProbitTransform, PeriodicTransform and AffineTransform (one row of coordinates at a time; CompositeTransform's mask bookkeeping is not translated)",
  "C02": "utils.logsumexp, utils.effective_sample_size, Samples.compute_weights (all seven stored fields), scaled_weights, the acceptance rule of rejection_sample",
  "C05": "SMCSamples.log_p_t and the statements of SMCSampler.log_prob / MCMCSampler.log_prob that form the kernel target",
- "C06": "SMCSampler.determine_beta (fixed rule, bisection loop, fallback step, adaptive minimum step, clamps), current_target_efficiency, the loop's exit test and the min_step initialisation of SMCSampler.sample",
+ "C06": "SMCSampler.determine_beta (fixed rule, bisection loop, fallback step, adaptive minimum step, clamps), current_target_efficiency, the loop's exit test and the min_step initialisation of SMCSampler.sample, and the LOOP of SMCSampler.sample statement by statement (the body of `while True:`, the nested maybe_checkpoint, the `if run_smc_loop:` / break skeleton and the statements after the loop up to the forced checkpoint) over the callee interface Gen.LoopOps (Props/C06LoopTie: the loop is left only at temperature 1 or at the step cap, one pass per unit of the counter, a step cap bounds the number of passes and forces termination, for every callee)",
  "C07": "SMCSampler.determine_beta / current_target_efficiency and the efficiency curve effective_sample_size(log_weights(b))/N",
- "C08": "SMCSamples.log_evidence_ratio, log_evidence_ratio_variance and the two statements that sum the recorded series after the loop",
+ "C08": "SMCSamples.log_evidence_ratio, log_evidence_ratio_variance the two statements that sum the recorded series after the loop, and the LOOP of SMCSampler.sample statement by statement (the body of `while True:`, the nested maybe_checkpoint, the `if run_smc_loop:` / break skeleton and the statements after the loop up to the forced checkpoint) over the callee interface Gen.LoopOps (Props/C08LoopTie: the recorded ratio is that of the population before the pass resamples it at the temperature determine_beta returned, is independent of that pass's resample/mutate, of the enlargement and of the checkpoint options, for every callee)",
  "C09": "SMCSamples.log_weights and the statements of SMCSamples.resample that compute the probability vector handed to rng.choice",
- "C11": "the statements of SMCSampler.sample that decide whether a resumed call re-enters the loop",
- "C12": "the cadence rule inside maybe_checkpoint of SMCSampler.sample and utils.dump_pickle_to_hdf (create / resize / overwrite of the checkpoint dataset, in a dataset vocabulary)",
+ "C11": "the statements of SMCSampler.sample that decide whether a resumed call re-enters the loop, and the LOOP of SMCSampler.sample statement by statement (the body of `while True:`, the nested maybe_checkpoint, the `if run_smc_loop:` / break skeleton and the statements after the loop up to the forced checkpoint) over the callee interface Gen.LoopOps (Props/C11LoopTie: the loop and the statements after it read nothing but the five values a checkpoint payload is built from, so a call restarted from them records the same history, evidence and new payloads, for every callee)",
+ "C12": "the cadence rule inside maybe_checkpoint of SMCSampler.sample and utils.dump_pickle_to_hdf (create / resize / overwrite of the checkpoint dataset, in a dataset vocabulary), and the LOOP of SMCSampler.sample statement by statement (the body of `while True:`, the nested maybe_checkpoint, the `if run_smc_loop:` / break skeleton and the statements after the loop up to the forced checkpoint) over the callee interface Gen.LoopOps (Props/C12LoopTie: src_cadence - the payloads handed to the callback are built at iterations e, 2e, ... and once at the end, the last one from the returned population, evidence, counter, temperature, minimum step and history)",
+ "C18": "the LOOP of SMCSampler.sample statement by statement (the body of `while True:`, the nested maybe_checkpoint, the `if run_smc_loop:` / break skeleton and the statements after the loop up to the forced checkpoint) over the callee interface Gen.LoopOps (Props/C18Tie: kitOf packages the callees as the model's Kit; one pass = Model.iterate, maybe_checkpoint = Model.maybeCheckpoint, the loop = Model.runLoop, the statements after the loop = Model.finish, the whole call = Model.runFrom, on the image of every model state; src_one_entry_per_iteration and src_history_faithful restate the property for the translated source)",
 }
 for pid, what in TIE.items():
     c = CLAIMS[pid]
